@@ -14,3 +14,7 @@ def cases(ctx):
 
 def build(suite, info):
     return genfuncs.build(PROP, suite, info)
+
+
+def search_global(ctx):
+    return genfuncs.search_global(PROP, ctx)
